@@ -36,6 +36,24 @@ Check C11_v2_presigned_accept_sound : forall mac auth r now_ns ak region service
     pct_decode sg = mac secret (v2_string_to_sign PresignedUrl (w_meth r) (w_raw_path r) (w_qs r) (w_hs r) (w_vh r)).
 Print Assumptions C11_v2_presigned_accept_sound.
 
+(* exactly: conversely, whenever those conditions hold the request is accepted under exactly that access key *)
+Theorem C11_v2_header_accept_complete : forall mac auth r ak sg f secret,
+  auth = Some f -> f ak = Some secret ->
+  sg = mac secret (v2_string_to_sign HeaderAuth (w_meth r) (w_raw_path r) (w_qs r) (w_hs r) (w_vh r)) ->
+  (hs_get_unique (w_hs r) (b "date") <> None \/ hs_get_unique (w_hs r) (b "x-amz-date") <> None) ->
+  v2_header_auth mac auth r ak sg = Accept ak [] (b "s3") None.
+Proof. exact v2_header_accept_complete. Qed.
+Print Assumptions C11_v2_header_accept_complete.
+Theorem C11_v2_presigned_accept_complete : forall mac auth r now_ns ak ex sg t f secret,
+  let qs := match w_qs r with Some l => l | None => [] end in
+  qs_get_unique qs (b "AWSAccessKeyId") = Some ak -> qs_get_unique qs (b "Expires") = Some ex ->
+  qs_get_unique qs (b "Signature") = Some sg -> parse_unix_ts ex = Some t ->
+  (now_ns <= t * 1000000000)%Z -> auth = Some f -> f ak = Some secret ->
+  pct_decode sg = mac secret (v2_string_to_sign PresignedUrl (w_meth r) (w_raw_path r) (w_qs r) (w_hs r) (w_vh r)) ->
+  v2_presigned mac auth r now_ns = Accept ak [] (b "s3") None.
+Proof. exact v2_presigned_accept_complete. Qed.
+Print Assumptions C11_v2_presigned_accept_complete.
+
 (* the AWS documentation examples, evaluated with the Gallina HMAC-SHA1 and base64 *)
 Example C11_aws_examples :
   mac_sha1 (b "wJalrXUtnFEMI/K7MDENG/bPxRfiCYEXAMPLEKEY")
